@@ -739,6 +739,92 @@ fn exec_f<E: El>(t: &[&str]) -> Outcome {
     }
 }
 
+/// class label of algebraically related operands, computed from the op line with the oracle: product of the
+/// non-zero entries of a batch-inversion input (or of the interpolation denominators) equal to 1 / -1, a
+/// proper prefix product equal to 1, entries summing to 0, a Horner accumulator hitting 0 / 1 midway,
+/// a power-series base of small order
+fn related_label<E: El>(t: &[&str]) -> String {
+    let f = E::OFLD;
+    let neg1 = f.sub(Z, ONE);
+    let prod_label = |v: &[OE], what: &str| -> String {
+        let mut out = String::new();
+        let nz: Vec<OE> = v.iter().cloned().filter(|x| *x != Z).collect();
+        if nz.len() < 2 {
+            return out;
+        }
+        let mut acc = ONE;
+        let mut prefix1 = false;
+        for (i, x) in nz.iter().enumerate() {
+            acc = f.mul(acc, *x);
+            if acc == ONE && i + 1 < nz.len() {
+                prefix1 = true;
+            }
+        }
+        if acc == ONE {
+            out.push_str(&format!(":{}prod=1", what));
+        } else if acc == neg1 {
+            out.push_str(&format!(":{}prod=-1", what));
+        }
+        if prefix1 {
+            out.push_str(&format!(":{}prefix-prod=1", what));
+        }
+        out
+    };
+    match t {
+        ["binv", xs] => match plist::<E>(xs) {
+            Some((_, v)) => {
+                let mut l = prod_label(&v, "");
+                if v.len() >= 2 && v.iter().fold(Z, |a, x| f.add(a, *x)) == Z && v.iter().any(|x| *x != Z) {
+                    l.push_str(":sum=0");
+                }
+                l
+            },
+            None => String::new(),
+        },
+        ["interp", xs, _, _] => match plist::<E>(xs) {
+            Some((_, v)) if v.len() >= 2 && v.len() <= 8 && !has_dup(&v) => {
+                let dens: Vec<OE> = (0..v.len())
+                    .map(|i| (0..v.len()).filter(|j| *j != i).fold(ONE, |a, j| f.mul(a, f.sub(v[i], v[j]))))
+                    .collect();
+                prod_label(&dens, "den-")
+            },
+            _ => String::new(),
+        },
+        ["eval", p, x] if p.len() < 2000 => match (plist::<E>(p), E::parse(x)) {
+            (Some((_, v)), Some((_, x))) if v.len() >= 3 => {
+                let mut acc = Z;
+                let mut hit = "";
+                for (i, c) in v.iter().rev().enumerate() {
+                    acc = f.add(f.mul(acc, x), *c);
+                    if i >= 1 && i + 1 < v.len() {
+                        if acc == Z {
+                            hit = ":acc=0-midway";
+                        } else if acc == ONE && hit.is_empty() {
+                            hit = ":acc=1-midway";
+                        }
+                    }
+                }
+                hit.into()
+            },
+            _ => String::new(),
+        },
+        ["pser", b, n] => match (E::parse(b), n.parse::<usize>()) {
+            (Some((_, b)), Ok(n)) if n >= 3 && b != ONE && b != Z => {
+                let mut acc = b;
+                for i in 1..n.min(40) {
+                    if acc == ONE {
+                        return format!(":base-order<={}", i);
+                    }
+                    acc = f.mul(acc, b);
+                }
+                String::new()
+            },
+            _ => String::new(),
+        },
+        _ => String::new(),
+    }
+}
+
 // ------------------------------------------------------------------------------------ generators
 struct G<'a> {
     f: &'static str,
@@ -1190,6 +1276,248 @@ fn gen_structured(g: &mut G, of: OF, gen0: u128, thorough: bool, light: bool, em
     }
 }
 
+// ------------------------------------------------------------------------------------ related operands
+/// Algebraically related operands (HARDENING.md 10): products / sums / accumulators that hit 0, 1 or -1.
+/// Random operands never have a running product of exactly 1, a Horner accumulator of exactly 0, … so
+/// every special-casing of such a value inside the code is invisible to them.
+fn gen_related(g: &mut G, of: OF, gen0: u128, thorough: bool, light: bool, emit: &mut dyn FnMut(String)) {
+    let f = g.f;
+    let k = g.deg;
+    let m = g.m;
+    let fmt = |e: &OE| -> String { (0..k).map(|i| e.0[i].to_string()).collect::<Vec<_>>().join(":") };
+    let ps = |p: &[OE]| -> String {
+        if p.is_empty() {
+            "-".into()
+        } else {
+            p.iter().map(|e| fmt(e)).collect::<Vec<_>>().join(",")
+        }
+    };
+    let base = |v: u128| -> OE { OE([v % m, 0, 0]) };
+    let neg1 = base(m - 1);
+    fn rnd(g: &mut G, k: usize, m: u128) -> OE {
+        loop {
+            let mut e = [0u128; 3];
+            for c in e.iter_mut().take(k) {
+                *c = g.word() % m;
+            }
+            if e != [0, 0, 0] {
+                return OE(e);
+            }
+        }
+    }
+    let prod = |v: &[OE]| -> OE { v.iter().filter(|x| **x != Z).fold(ONE, |a, x| of.mul(a, *x)) };
+    // a vector of `len` non-zero entries whose product is `target`: random prefix, closing element at `pos`
+    let with_product = |g: &mut G, len: usize, target: OE, pos: usize| -> Vec<OE> {
+        let mut v: Vec<OE> = (0..len).map(|_| rnd(g, k, m)).collect();
+        v[pos] = ONE;
+        let p = prod(&v);
+        v[pos] = of.mul(target, of.inv(p));
+        v
+    };
+    let mut binv = |v: &[OE], emit: &mut dyn FnMut(String)| emit(format!("{} binv {}", f, ps(v)));
+
+    // ---- batch inversion: product of the non-zero entries exactly 1, -1, a small constant
+    let lens: Vec<usize> = if light && !thorough { vec![2, 3, 4, 5, 8, 17] } else { (2..=17).collect() };
+    let targets = [ONE, neg1, base(2)];
+    for &len in &lens {
+        for (ti, t) in targets.iter().enumerate() {
+            for pos in [0, len / 2, len - 1] {
+                if ti > 0 && pos == len / 2 && !thorough {
+                    continue;
+                }
+                let v = with_product(g, len, *t, pos);
+                binv(&v, emit);
+                // zeros interleaved: at every position (short vectors) or at a few positions
+                let zpos: Vec<usize> = if len <= 6 || thorough { (0..=len).collect() } else { vec![0, len / 2, len] };
+                if ti == 0 {
+                    for z in zpos {
+                        let mut w = v.clone();
+                        w.insert(z, Z);
+                        binv(&w, emit);
+                        if z % 2 == 0 {
+                            w.insert(len + 1 - z.min(len), Z);
+                            binv(&w, emit); // two zeros
+                        }
+                    }
+                }
+            }
+        }
+        // prefix product 1 midway, then more entries (total != 1, and total == 1 again)
+        let h = (len / 2).max(2).min(len);
+        let mut v = with_product(g, h, ONE, h - 1);
+        let tail: Vec<OE> = (0..len - h).map(|_| rnd(g, k, m)).collect();
+        v.extend(tail);
+        binv(&v, emit);
+        if len - h >= 2 {
+            let mut w = with_product(g, h, ONE, 0);
+            w.extend(with_product(g, len - h, ONE, len - h - 1));
+            binv(&w, emit);
+            w.insert(h, Z);
+            binv(&w, emit);
+        }
+        // sum = 0
+        let mut v: Vec<OE> = (0..len - 1).map(|_| rnd(g, k, m)).collect();
+        let sum = v.iter().fold(Z, |a, x| of.add(a, *x));
+        if sum != Z {
+            v.push(of.sub(Z, sum));
+            binv(&v, emit);
+        }
+    }
+    // the smallest instances, spelled out: [x, 1/x], [x, 0, 1/x], [a, b, 1/(ab)], (a, -a), (a, a),
+    // inverses in adjacent and in distant positions
+    for _ in 0..(if light && !thorough { 2 } else { 4 }) {
+        let x = rnd(g, k, m);
+        let y = rnd(g, k, m);
+        let xi = of.inv(x);
+        let yi = of.inv(y);
+        let nx = of.sub(Z, x);
+        for v in [
+            vec![x, xi],
+            vec![xi, x],
+            vec![x, Z, xi],
+            vec![Z, x, xi],
+            vec![x, xi, Z],
+            vec![x, y, of.inv(of.mul(x, y))],
+            vec![x, nx],
+            vec![x, Z, nx],
+            vec![x, x],
+            vec![x, x, xi, xi],
+            vec![x, xi, y],
+            vec![x, y, xi],
+            vec![y, x, xi],
+            vec![x, y, y, y, xi],
+            vec![x, y, xi, yi],
+            vec![x, y, yi, xi],
+            vec![x, nx, xi, of.sub(Z, xi)],
+            vec![neg1, neg1],
+            vec![neg1, x, neg1, xi],
+            vec![base(2), base(5), of.inv(base(10))],
+        ] {
+            binv(&v, emit);
+        }
+    }
+    // around the chunk boundary of the concurrent variant: product 1 over the whole vector, over the first
+    // 1024 entries, over the entries from 1024 on
+    let bigs: &[usize] = if light && !thorough { &[1025] } else { &[1023, 1024, 1025, 2048] };
+    for &len in bigs {
+        let v = with_product(g, len, ONE, len - 1);
+        binv(&v, emit);
+        let mut w = v.clone();
+        w[1] = Z;
+        w[len - 2] = Z;
+        let p = prod(&w);
+        w[0] = of.mul(w[0], of.inv(p));
+        binv(&w, emit);
+        if len > 1024 {
+            let mut u = with_product(g, 1024, ONE, 1023);
+            u.extend(with_product(g, len - 1024 + 1, ONE, 0).into_iter().skip(1));
+            binv(&u, emit);
+            let mut u2 = with_product(g, 1024, base(3), 5);
+            u2.extend(with_product(g, len - 1024, of.inv(base(3)), 0));
+            binv(&u2, emit);
+        }
+        let v = with_product(g, len, neg1, 0);
+        binv(&v, emit);
+    }
+
+    // ---- interpolation: the denominators prod_{k != i}(x_i - x_k) handed to batch inversion multiply to 1 / -1
+    // n = 2: d0 = x0 - x1, d1 = -d0, product -d0^2; with d0 = sqrt(-1) the product is 1, with d0 = 1 it is -1
+    let im = base(powmod(gen0, (m - 1) / 4, m)); // a square root of -1
+    for a in [Z, ONE, rnd(g, k, m), rnd(g, k, m)] {
+        for d in [im, of.sub(Z, im), ONE, neg1, base(2)] {
+            let xs = vec![a, of.add(a, d)];
+            let ys = vec![rnd(g, k, m), rnd(g, k, m)];
+            for rlz in [0, 1] {
+                emit(format!("{} interp {} {} {}", f, ps(&xs), ps(&ys), rlz));
+            }
+            emit(format!("{} interpb 2 1 1 {} {}", f, ps(&xs), ps(&ys)));
+            // two batches whose denominator products are 1 each / multiply to 1 together
+            let b = rnd(g, k, m);
+            let xs2 = vec![a, of.add(a, d), b, of.add(b, of.inv(d))];
+            let ys2: Vec<OE> = (0..4).map(|_| rnd(g, k, m)).collect();
+            emit(format!("{} interpb 2 2 2 {} {}", f, ps(&xs2), ps(&ys2)));
+        }
+    }
+    // n = 3 on a scaled arithmetic progression a, a+t, a+2t: the product of the denominators is -4 t^6;
+    // n points scaled so that the product is exactly 1 needs a root - instead sweep small t (products 1*..)
+    for t in [ONE, neg1, im, base(2)] {
+        let a = rnd(g, k, m);
+        let xs = vec![a, of.add(a, t), of.add(a, of.add(t, t))];
+        let ys: Vec<OE> = (0..3).map(|_| rnd(g, k, m)).collect();
+        emit(format!("{} interp {} {} 0", f, ps(&xs), ps(&ys)));
+        emit(format!("{} interpb 3 1 1 {} {}", f, ps(&xs), ps(&ys)));
+    }
+
+    // ---- Horner / synthetic-division accumulators hitting 0 and 1 midway
+    for _ in 0..(if light && !thorough { 2 } else { 4 }) {
+        let r = rnd(g, k, m);
+        let u: Vec<OE> = of.pmul(&[of.sub(Z, r), ONE], &[rnd(g, k, m), rnd(g, k, m), ONE]); // u(r) = 0
+        let low: Vec<OE> = (0..3).map(|_| rnd(g, k, m)).collect();
+        // p = x^3 * u + low: the accumulator is 0 after the high part, at x = r
+        let mut p0 = low.clone();
+        p0.extend(u.iter().cloned());
+        emit(format!("{} eval {} {}", f, ps(&p0), fmt(&r)));
+        emit(format!("{} syndiv {} 1 {}", f, ps(&p0), fmt(&r)));
+        emit(format!("{} syndivroots {} {}", f, ps(&p0), ps(&[r, rnd(g, k, m)])));
+        // accumulator 1 after the high part: u + 1
+        let mut u1 = u.clone();
+        u1[0] = of.add(u1[0], ONE);
+        let mut p1 = low.clone();
+        p1.extend(u1.iter().cloned());
+        emit(format!("{} eval {} {}", f, ps(&p1), fmt(&r)));
+        emit(format!("{} syndiv {} 1 {}", f, ps(&p1), fmt(&r)));
+        // value exactly 0 / 1 / -1 at the point
+        for c in [Z, ONE, neg1] {
+            let mut pc = u.clone();
+            pc[0] = of.add(pc[0], c);
+            emit(format!("{} eval {} {}", f, ps(&pc), fmt(&r)));
+            emit(format!("{} evalmany {} {}", f, ps(&pc), ps(&[r, Z, ONE, r])));
+        }
+        // quotients with coefficients 0, 1, -1 (the carry / `quot` of the loops)
+        let q = vec![ONE, Z, neg1, ONE, ONE, Z, ONE];
+        let b = vec![rnd(g, k, m), rnd(g, k, m), ONE];
+        emit(format!("{} div {} {}", f, ps(&of.pmul(&q, &b)), ps(&b)));
+        emit(format!("{} syndiv {} 1 {}", f, ps(&of.pmul(&q, &[of.sub(Z, r), ONE])), fmt(&r)));
+        emit(format!("{} syndiv {} 2 {}", f, ps(&of.pmul(&q, &of.xab(2, r))), fmt(&r)));
+    }
+    // ---- power series whose accumulator returns to 1 (bases of small order) or is 0
+    for ord in [1u128, 2, 4, 8, 16] {
+        let b = base(powmod(gen0, (m - 1) / ord, m));
+        for nn in [3usize, 9, 17, 33] {
+            emit(format!("{} pser {} {}", f, fmt(&b), nn));
+            emit(format!("{} psero {} {} {}", f, fmt(&b), fmt(&of.inv(b)), nn));
+            emit(format!("{} psero {} {} {}", f, fmt(&b), fmt(&rnd(g, k, m)), nn));
+        }
+    }
+    // ---- sums / products cancelling: a + (-a), a - a, a + b*c = 0, coefficients of a product cancelling
+    for len in [1usize, 3, 6] {
+        let a: Vec<OE> = (0..len).map(|_| rnd(g, k, m)).collect();
+        let na: Vec<OE> = a.iter().map(|x| of.sub(Z, *x)).collect();
+        emit(format!("{} add {} {}", f, ps(&a), ps(&na)));
+        emit(format!("{} sub {} {}", f, ps(&a), ps(&a)));
+        emit(format!("{} addip {} {}", f, ps(&a), ps(&na)));
+        let mut a1 = a.clone();
+        a1.push(rnd(g, k, m));
+        emit(format!("{} add {} {}", f, ps(&a1), ps(&na))); // only the top coefficient survives
+        emit(format!("{} sub {} {}", f, ps(&a), ps(&a1)));
+        emit(format!("{} scal {} {}", f, ps(&a), fmt(&of.inv(a[0])))); // a coefficient becomes 1
+    }
+    emit(format!("{} mul {} {}", f, ps(&[ONE, ONE]), ps(&[ONE, neg1]))); // (1+x)(1-x): middle term cancels
+    emit(format!("{} mul {} {}", f, ps(&[ONE, ONE, ONE]), ps(&[neg1, ONE]))); // x^3 - 1
+    let r = rnd(g, k, m);
+    emit(format!("{} mul {} {}", f, ps(&[r, ONE]), ps(&[of.sub(Z, r), ONE]))); // x^2 - r^2
+    emit(format!("{} mul {} {}", f, ps(&[r, of.inv(r)]), ps(&[of.inv(r), r])));
+    if k == 1 {
+        // mul_acc: a[i] + b[i]*c = 0 and = 1 (b is a sub-field list: only expressible in the base fields here)
+        let c = rnd(g, k, m);
+        let b: Vec<OE> = (0..5).map(|_| rnd(g, k, m)).collect();
+        let a0: Vec<OE> = b.iter().map(|x| of.sub(Z, of.mul(*x, c))).collect();
+        let a1: Vec<OE> = b.iter().map(|x| of.sub(ONE, of.mul(*x, c))).collect();
+        emit(format!("{} mulacc {} {} {}", f, ps(&a0), ps(&b), fmt(&c)));
+        emit(format!("{} mulacc {} {} {}", f, ps(&a1), ps(&b), fmt(&c)));
+    }
+}
+
 /// `light`: the further extension fields get the same generators on smaller exhaustive sets (the code
 /// under test is generic; they mainly add the extension arithmetic of C08 to the picture)
 #[allow(clippy::too_many_arguments)]
@@ -1363,6 +1691,7 @@ fn gen_f(
     }
 
     gen_structured(&mut g, of, gen0, thorough, light, emit);
+    gen_related(&mut g, of, gen0, thorough, light, emit);
 
     // ---- random structured cases
     let sizes = |g: &mut G| -> usize {
@@ -1547,7 +1876,18 @@ impl Prop for P {
         let t: Vec<&str> = line.split(' ').collect();
         let o = if out == "panic" || out == "hang" || out == "abort" || out == "bad-op" { out } else { "ok" };
         let empty = if t.iter().skip(2).any(|a| *a == "-") { ":empty-operand" } else { "" };
-        format!("{}.{}:{}{}", t.first().unwrap_or(&""), t.get(1).unwrap_or(&""), o, empty)
+        let rel = match t.first() {
+            Some(&"f64") => related_label::<f64::BaseElement>(&t[1..]),
+            Some(&"f62") => related_label::<f62::BaseElement>(&t[1..]),
+            Some(&"f128") => related_label::<f128::BaseElement>(&t[1..]),
+            Some(&"q64") => related_label::<Q64>(&t[1..]),
+            Some(&"q62") => related_label::<Q62>(&t[1..]),
+            Some(&"q128") => related_label::<Q128>(&t[1..]),
+            Some(&"c64") => related_label::<C64>(&t[1..]),
+            Some(&"c62") => related_label::<C62>(&t[1..]),
+            _ => String::new(),
+        };
+        format!("{}.{}:{}{}{}", t.first().unwrap_or(&""), t.get(1).unwrap_or(&""), o, empty, rel)
     }
     fn panic_site(&self, _line: &str) -> Option<String> {
         // panics of the library are caught and judged inside exec (`call`); a panic that escapes is
@@ -1559,7 +1899,7 @@ impl Prop for P {
          division with a in 0..5 and b in {1,2,p-1,0}; all pairs of such lists of length <= 2 (thorough: <= 3) and long x short pairs for \
          add/sub/mul/div/add_in_place; interpolation over every small point list incl. empty, singletons, duplicates and 0; batch inversion \
          with every pattern of zeros up to length 7 (thorough 10) and a zero at every position of longer vectors; sizes 0,1,2,3,1023,1024,1025 \
-         for the batched utilities; seeded random operands up to length 300 with leading/trailing/interior zeros, non-canonical inputs (p, p+1), \
+         for the batched utilities; algebraically related operands (batch-inversion inputs and interpolation denominators whose non-zero product is 1, -1 or a small constant, prefix products 1, sums 0, (a,-a), (a,a), mutual inverses, Horner accumulators 0/1 midway, bases of small order; labelled in the distribution); seeded random operands up to length 300 with leading/trailing/interior zeros, non-canonical inputs (p, p+1), \
          exact and inexact divisions, a = 1, a >= 2, b = 1, a > deg p; a case is non-trivial when its op line is distinct"
     }
 }
